@@ -648,6 +648,8 @@ class World:
                                           % (self.now - c.t_used, os.path.basename(os.fspath(path))))
                             return
             return
+        if ctx.op['k'] == 'clearcache':
+            return                           # the user asked for it
         if pclass == 'src':
             self._violate(ctx, 'maintenance', 'remove-source', 'a parso process removed a source file %s' % path)
             return
@@ -838,6 +840,24 @@ class World:
                 raise
             except BaseException as e:
                 return ('exc', e)
+            return ('noop',)
+        if k == 'clearcache':
+            # `rm -rf` of the cache directory / parso.cache.clear_cache(): entry by entry, every call a
+            # seam step, so that another process can be anywhere in its load / save meanwhile
+            d = os.fspath(self.cdir(op.get('c', 0)))
+            try:
+                for dirpath, dirnames, filenames in os.walk(d, topdown=False):
+                    for name in filenames:
+                        os.remove(os.path.join(dirpath, name))
+                    os.rmdir(dirpath)
+            except SimCrash:
+                return ('crash',)
+            except (HarnessError, StepCap):
+                raise
+            except OSError:
+                pass                                  # raced with a writer: `rm` gives up, too
+            if op.get('mem', True):
+                pc.parser_cache.clear()
             return ('noop',)
         if k == 'usednames':
             # a client that uses the cached module between two edits
